@@ -54,6 +54,22 @@ fn snapshot(files: &Files) -> Option<(String, usize, SnapshotHeader, Model)> {
     Some(((*n).clone(), 4 + hl, h, m.into_iter().collect()))
 }
 
+/// Every decodable snapshot of an image: (name, map, last transaction id covered)
+fn snapshots_all(files: &Files) -> Vec<(String, Model, u64)> {
+    let mut out = Vec::new();
+    for (n, b) in files {
+        if !n.ends_with(".snap") || b.len() < 4 {
+            continue;
+        }
+        let hl = u32::from_le_bytes([b[0], b[1], b[2], b[3]]) as usize;
+        let Some(hb) = b.get(4..4 + hl) else { continue };
+        let Ok(h) = postcard::from_bytes::<SnapshotHeader>(hb) else { continue };
+        let Ok(m) = postcard::from_bytes::<std::collections::HashMap<String, u32>>(&b[4 + hl..]) else { continue };
+        out.push((n.clone(), m.into_iter().collect(), h.last_transaction_id));
+    }
+    out
+}
+
 fn fold(base: &Model, covered: u64, recs: &[&Rec]) -> Model {
     let mut m = base.clone();
     for r in recs {
@@ -455,6 +471,19 @@ fn main() {
                             "-"
                         };
                         run.violation_lazy("C07.report", fts(&[("part", sub.into())]), || (wit(json!({"recovered": r.map, "stats": format!("{:?}", r.stats)})), format!("{} at {}+{} ({}) not reported: no corruption event, no failed entry", d0.kind, d0.file, d0.off, c0.region)));
+                    }
+                    if c0.in_snapshot {
+                        // the log's records are all intact: whichever snapshot recovery ends up using (the damaged one if
+                        // the damage is harmless, an older one, or none), every log record it does not cover is honoured
+                        let mut acceptable: Vec<Model> = vec![undamaged.clone(), fold(&Model::new(), 0, &all)];
+                        for (n, m, cov_id) in snapshots_all(&base) {
+                            if n != d0.file {
+                                acceptable.push(fold(&m, cov_id, &all));
+                            }
+                        }
+                        if !acceptable.contains(&r.map) {
+                            run.violation_lazy("C07.before", fts(&[("shape", "intact-log-records-not-honoured-after-snapshot-damage".into())]), || (wit(json!({"recovered": r.map, "acceptable": acceptable})), format!("snapshot damaged, log intact: recovered {:?} is neither the undamaged state nor an intact snapshot (or none) plus every log record", r.map)));
+                        }
                     }
                     if !c0.in_snapshot {
                         // before / after
